@@ -46,7 +46,7 @@ RunOf(j) ==
      flk |-> [lv \in {j.flk[i][1] : i \in 1..Len(j.flk)} |->
                 LET r == j.flk[CHOOSE i \in 1..Len(j.flk) : j.flk[i][1] = lv] IN <<r[2], r[3]>>],
      K |-> j.K, chunk |-> j.chunk, P |-> j.P,
-     minm |-> j.minm, votes |-> j.votes]
+     minm |-> j.minm, votes |-> j.votes, draws |-> j.draws]
 
 Ev == Traces[tid].events
 
